@@ -23,7 +23,8 @@ and the topological sort is proved sound and total on every such graph (`topo_hi
 graphs, every node once after all its dependencies, `cyclic` otherwise).
 `graft` refines its set-level counterpart (`graft_refines_spec`) and preserves the ordering constraints between
 the plain nodes (`graft_preserves_order`); transitive closure and reduction are proved on acyclic graphs (`closure_spec`, `reduction_spec`: same reachability,
-most / fewest edges).  Not proved: the `flatten` loop over the nested store (each of its rounds is a `graft`), recursive
+most / fewest edges).  `grafts_preserve_order` extends this to any sequence of grafts and `flatten_round_eq` shows that one round of the model's
+`flatten` is such a sequence.  Not proved: the recursion of `flatten(recurse=True)` over nested levels, recursive
 `dependencies` (`<=` is `le_reads`, `==` is `eq_reads`) — in the executable model and tied to the code by the correspondence
 (`multi_history_refines` is therefore the `…_partial` form of the property's first sentence: histories whose grafts are
 taken one at a time through `graft_refines_spec`).  `c16_pinned_refuted` keeps the pinned `graft` (A19) refuted.
@@ -402,6 +403,77 @@ theorem graft_preserves_order {g sub : G} {s t : Spec} (hg : Refines g s) (hs : 
   constructor
   · exact graft_order_sound hEs hEt hdisj hxx hu hux hw
   · exact graft_order_complete hxx (exists_init_term l lnd lmem hEt lord) hux hwx
+
+/-- the hypotheses of `graft_preserves_order` for a sequence of grafts, each stated on the graph as it is when its turn
+comes -/
+def StepsOK : Spec → List (Nat × G) → Prop
+  | _, [] => True
+  | s, (x, sub) :: rest =>
+    ∃ t, Refines sub t ∧ s.N x ∧ (∀ z, t.N z → ¬ s.N z) ∧ ¬ s.E x x ∧ ¬ t.Cyclic ∧ StepsOK (s.graft t x) rest
+
+/-- **a round of `flatten` (any sequence of grafts) preserves the ordering constraints between the plain nodes**: the
+nodes that are there at the start and are not themselves replaced have to come one after the other in the result
+exactly when they had to at the start -/
+theorem grafts_preserve_order (steps : List (Nat × G)) : ∀ {g : G} {s : Spec}, Refines g s → StepsOK s steps →
+    ∃ g' s', steps.foldlM (fun g p => g.graft p.1 p.2) g = .ok g' ∧ Refines g' s' ∧
+      ∀ u w, s.N u → u ∉ steps.map (·.1) → s.N w → w ∉ steps.map (·.1) →
+        (s'.N u ∧ s'.N w ∧ (Relation.TransGen s'.E u w ↔ Relation.TransGen s.E u w)) := by
+  induction steps with
+  | nil =>
+    intro g s hg _
+    exact ⟨g, s, rfl, hg, fun u w hu _ hw _ => ⟨hu, hw, Iff.rfl⟩⟩
+  | cons p rest ih =>
+    intro g s hg hok
+    obtain ⟨x, sub⟩ := p
+    obtain ⟨t, hsub, hx, hdisj, hxx, hac, hrest⟩ := hok
+    obtain ⟨g1, hg1, hr1, hord1⟩ := graft_preserves_order hg hsub hx hdisj hxx hac
+    obtain ⟨g', s', hg', hr', hord'⟩ := ih hr1 hrest
+    refine ⟨g', s', ?_, hr', ?_⟩
+    · rw [List.foldlM_cons, hg1]; exact hg'
+    · intro u w hu hun hw hwn
+      simp only [List.map_cons, List.mem_cons, not_or] at hun hwn
+      have hu1 : (s.graft t x).N u := Or.inl ⟨hu, hun.1⟩
+      have hw1 : (s.graft t x).N w := Or.inl ⟨hw, hwn.1⟩
+      obtain ⟨a, b, c⟩ := hord' u w hu1 hun.2 hw1 hwn.2
+      refine ⟨a, b, c.trans ?_⟩
+      have eE : g1.Edge = (s.graft t x).E := by funext a b; exact propext (hr1.2.2 a b)
+      rw [← eE]
+      exact hord1 u w hu hun.1 hw hwn.1
+
+/-- one round of the model's `flatten` is such a sequence of grafts -/
+theorem flatten_round_eq (store : Nat → Option G) (g : G) (fuel : Nat) (subs : List G)
+    (hne : (g.nodes.seq.filter (· ≥ nestedBase)) ≠ [])
+    (hstore : (g.nodes.seq.filter (· ≥ nestedBase)).map (fun x => store (x - nestedBase)) = subs.map some) :
+    flattenLoop store false (fuel + 1) g =
+      ((g.nodes.seq.filter (· ≥ nestedBase)).zip subs).foldlM (fun g p => g.graft p.1 p.2) g := by
+  rw [flattenLoop]
+  have hemp : (g.nodes.seq.filter (· ≥ nestedBase)).isEmpty = false := by
+    cases hq : g.nodes.seq.filter (· ≥ nestedBase) with
+    | nil => exact absurd hq hne
+    | cons a r => rfl
+  simp only [hemp, Bool.false_eq_true, if_false, bind, Except.bind]
+  -- the two folds agree step by step
+  have key : ∀ (l : List Nat) (ss : List G) (g0 : G), l.map (fun x => store (x - nestedBase)) = ss.map some →
+      l.foldlM (graftNested store) g0 =
+        (l.zip ss).foldlM (fun g p => g.graft p.1 p.2) g0 := by
+    intro l
+    induction l with
+    | nil => intro ss g0 _; cases ss <;> rfl
+    | cons x xs ihl =>
+      intro ss g0 hm
+      cases ss with
+      | nil => simp at hm
+      | cons sb sbs =>
+        simp only [List.map_cons, List.cons.injEq] at hm
+        rw [List.foldlM_cons, List.zip_cons_cons, List.foldlM_cons]
+        unfold graftNested
+        rw [hm.1]
+        simp only [bind, Except.bind]
+        cases g0.graft x sb with
+        | error e => rfl
+        | ok g1 => exact ihl sbs g1 hm.2
+  rw [key _ subs g hstore]
+  cases ((g.nodes.seq.filter (· ≥ nestedBase)).zip subs).foldlM (fun g p => g.graft p.1 p.2) g <;> rfl
 
 /-! ### Transitive closure and reduction (second sentence) -/
 
